@@ -54,7 +54,7 @@ func (x *Exec) script(q *Query, quant bool, z3 bool, model bool) string {
 		fmt.Fprintf(&b, "(assert %s)\n", a)
 	}
 	if !q.Smoke {
-		goal, decls, trig := x.skolemGoal(q.Goal)
+		goal, decls, trig := x.skolemGoal(q)
 		for _, d := range decls {
 			if !x.w.extraSeen[d] {
 				b.WriteString(d)
